@@ -273,13 +273,17 @@ func ruleR20c(c *Ctx) {
 	c.check(strings.Contains(src, "timeType"), "R20c", "data.NewWith time-before-struct", fd.Pos(), "time.Time is recognised before the struct case", "time.Time is not special-cased before the struct case: it is converted field by field")
 	if cc := have["Slice"]; cc != nil {
 		s := ""
-		ast.Inspect(cc, func(x ast.Node) bool {
-			if e, ok := x.(ast.Expr); ok {
-				s += exprKey(e) + ";"
-				return false
-			}
-			return true
-		})
+		// the arm, or the helper it hands the slice to
+		for _, nd := range c.nodeWithHelpers("data", cc, 1) {
+			ast.Inspect(nd, func(x ast.Node) bool {
+				if call, ok := x.(*ast.CallExpr); ok {
+					if se, ok := call.Fun.(*ast.SelectorExpr); ok && se.Sel.Name == "IsNil" && len(call.Args) == 0 {
+						s += "IsNil();"
+					}
+				}
+				return true
+			})
+		}
 		c.check(strings.Contains(s, "IsNil()"), "R20c", "data.NewWith nil-slice", cc.Pos(), "a nil slice is handled before indexing", "nil slices are not tested")
 	}
 }
